@@ -28,6 +28,9 @@ type impCase struct {
 	Depth  int            `json:"depth"`  // MaxImportDepth (0 = unlimited)
 	Scheds [][]int        `json:"scheds"` // choice streams: which pending read completes next
 	Faults map[int]string `json:"faults,omitempty"`
+	// Remote: the whole closure lives in a remote-style repository (//github.com/org/repo/<path>@v1);
+	// the gated reader serves those names from the same table and reports branch "v1"
+	Remote bool `json:"remote,omitempty"`
 	// foreign leaf files (C06): index -> content; imported with an "as" clause
 	Classes []string `json:"classes,omitempty"`
 }
@@ -38,6 +41,15 @@ func relPath(fromDir, target string) string {
 	}
 	ups := strings.Count(fromDir, "/") + 1
 	return strings.Repeat("../", ups) + target
+}
+
+const c05RemoteRoot = "//github.com/org/repo"
+
+func (g *impCase) rootResource() string {
+	if g.Remote {
+		return c05RemoteRoot + "/" + g.Paths[0] + "@v1"
+	}
+	return g.Paths[0]
 }
 
 var c05Dirs = []string{"", "", "sub/", "sub/deep/", "other/"}
@@ -51,6 +63,7 @@ func genImpGraph(t *rapid.T, maxFiles int) impCase {
 	}
 	g.Edges = make([][]int, n)
 	g.Spell = make([][]string, n)
+	g.Remote = rapid.IntRange(0, 3).Draw(t, "remote") == 0
 	shape := rapid.IntRange(0, 5).Draw(t, "shape")
 	// some files are always imported under one alias ('import f3 as A3'): the same file reached twice
 	// under the same name is legal (only different names or versions are an error)
@@ -82,6 +95,9 @@ func genImpGraph(t *rapid.T, maxFiles int) impCase {
 			s = "/" + "./" + target
 		default:
 			s = rel
+		}
+		if g.Remote && rapid.IntRange(0, 4).Draw(t, "remotespelling") == 0 {
+			s = c05RemoteRoot + "/" + target + "@v1" // the full versioned remote name
 		}
 		if alias[j] {
 			s += fmt.Sprintf(" as Ns :: A%d", j)
@@ -270,6 +286,9 @@ func (g *impCase) classes() []string {
 	if g.hasCycle() {
 		cl = append(cl, "cycle")
 	}
+	if g.Remote {
+		cl = append(cl, "remote_style_versioned_paths")
+	}
 	indeg := make([]int, n)
 	self := false
 	multi := false
@@ -397,7 +416,8 @@ func canonName(p string) string {
 		p = p[:i]
 	}
 	p = strings.TrimPrefix(path.Clean(p), "./")
-	return strings.TrimPrefix(p, "/")
+	p = strings.TrimPrefix(p, "/")
+	return strings.TrimPrefix(p, strings.TrimPrefix(c05RemoteRoot, "//")+"/")
 }
 
 func (g *gateReader) Read(ctx context.Context, p string) ([]byte, error) {
@@ -430,10 +450,14 @@ func (g *gateReader) ReadHashBranch(ctx context.Context, p string) ([]byte, retr
 	if g.readErr[idx] {
 		return nil, retriever.ZeroHash, "", fmt.Errorf("injected read failure for %q", p)
 	}
-	if c, ok := g.content[idx]; ok {
-		return []byte(c), retriever.ZeroHash, "", nil
+	branch := ""
+	if g.g.Remote {
+		branch = "v1"
 	}
-	return []byte(g.g.fileText(idx)), retriever.ZeroHash, "", nil
+	if c, ok := g.content[idx]; ok {
+		return []byte(c), retriever.ZeroHash, branch, nil
+	}
+	return []byte(g.g.fileText(idx)), retriever.ZeroHash, branch, nil
 }
 
 type gateResult struct {
@@ -468,7 +492,7 @@ func runGated(g *impCase, gr *gateReader, sched []int, followImports func(i int)
 				done <- res{nil, nil, fmt.Sprint(r)}
 			}
 		}()
-		m, err := p.Parse(g.Paths[0], gr)
+		m, err := p.Parse(g.rootResource(), gr)
 		done <- res{m, err, ""}
 	}()
 	out := &gateResult{ModelClaimed: map[int]int{0: 0}, ModelExact: true}
